@@ -97,6 +97,21 @@ Definition lk_snoopy_tsrm_localtime_r : lkfn := {| lk_name := "snoopy_tsrm_local
    (KUnlock "snoopy_tsrm_threadRepo_mutex");
    KReturn] |}.
 
-Definition tsrm_fns : list lkfn := [lk_snoopy_tsrm_ctor; lk_snoopy_tsrm_dtor; lk_snoopy_tsrm_init; lk_snoopy_tsrm_onLoad; lk_snoopy_tsrm_atfork_prepare; lk_snoopy_tsrm_atfork_parent; lk_snoopy_tsrm_atfork_child; lk_snoopy_tsrm_doesThreadRepoEntryExist; lk_snoopy_tsrm_createNewThreadData; lk_snoopy_tsrm_getCurrentThreadId; lk_snoopy_tsrm_getCurrentThreadRepoEntry; lk_snoopy_tsrm_getCurrentThreadData; lk_snoopy_tsrm_get_configuration; lk_snoopy_tsrm_get_inputdatastorage; lk_snoopy_tsrm_get_threadCount; lk_snoopy_tsrm_localtime_r].
+Definition lk_snoopy_tsrm_strftime : lkfn := {| lk_name := "snoopy_tsrm_strftime"; lk_nparams := 4; lk_body :=
+  [(KLock "snoopy_tsrm_threadRepo_mutex");
+   (KExt "strftime");
+   (KUnlock "snoopy_tsrm_threadRepo_mutex");
+   KReturn] |}.
+
+Definition lk_snoopy_tsrm_getutline : lkfn := {| lk_name := "snoopy_tsrm_getutline"; lk_nparams := 3; lk_body :=
+  [(KLock "snoopy_tsrm_threadRepo_mutex");
+   (KExt "setutent");
+   (KExt "getutline_r");
+   (KExt "endutent");
+   (KUnlock "snoopy_tsrm_threadRepo_mutex");
+   KReturn] |}.
+
+Definition tsrm_fns : list lkfn := [lk_snoopy_tsrm_ctor; lk_snoopy_tsrm_dtor; lk_snoopy_tsrm_init; lk_snoopy_tsrm_onLoad; lk_snoopy_tsrm_atfork_prepare; lk_snoopy_tsrm_atfork_parent; lk_snoopy_tsrm_atfork_child; lk_snoopy_tsrm_doesThreadRepoEntryExist; lk_snoopy_tsrm_createNewThreadData; lk_snoopy_tsrm_getCurrentThreadId; lk_snoopy_tsrm_getCurrentThreadRepoEntry; lk_snoopy_tsrm_getCurrentThreadData; lk_snoopy_tsrm_get_configuration; lk_snoopy_tsrm_get_inputdatastorage; lk_snoopy_tsrm_get_threadCount; lk_snoopy_tsrm_localtime_r; lk_snoopy_tsrm_strftime; lk_snoopy_tsrm_getutline].
+Definition inlined_helpers : list string := [].
 (* functions of src/tsrm.c that carry __attribute__((constructor)) *)
 Definition constructors : list string := ["snoopy_tsrm_onLoad"].
